@@ -197,6 +197,12 @@ example : leftCount (centerMask 14 3) = 1 ∧ rightCount (centerMask 14 3) = 1 :
 example : leftCount (centerMask 15 4) = 1 ∧ rightCount (centerMask 15 4) = 2 := by decide
 example : magicCap 5 3 = 3 ∧ magicCap 0 3 = 1 ∧ magicCap 2 3 = 2 := by decide
 example : inDisk 8 8 2 4 4 = true ∧ inDisk 8 8 2 3 4 = true ∧ inDisk 8 8 2 5 4 = true ∧ inDisk 8 8 2 2 4 = false := by decide
+/-- the hypotheses of `acs_subset_mask` are satisfiable (both branches return) -/
+example : (assemble .ktUniform .dynamic [2, 2, 4, 1] (.lines 2) true [[true, false, false, false], [false, false, false, true]]).toOption.isSome = true
+    ∧ (assemble .ktUniform .dynamic [2, 2, 4, 1] (.lines 2) false [[true, false, false, false], [false, false, false, true]]).toOption.isSome = true := by
+  decide
+example : (assemble .radial .static [3, 3, 2] (.search [1, 2]) true [[true, true, false, true, true, true, false, true, false]]).toOption.map (·.data)
+    = some [true, true, false, true, true, true, false, true, false] := by decide
 example : (assemble .fastmriRandom .dynamic [2, 2, 4, 1] (.lines 2) true [[false, false, false, false], [true, false, false, false]]).toOption.map (·.shape)
     = some [1, 2, 2, 4, 1] := by decide
 
